@@ -420,8 +420,9 @@ TIES = {
                    theorems=['match_parameters_eq', 'match_parameters_tie', 'print_mismatch_one_eq', 'print_mismatch_all_eq', 'print_mismatch_tie',
                              'missed_value_eq', 'stream_params_eq'],
                    cxx='match_parameters, print_mismatch, missed_value, stream_params (mock.hpp): the pack folds over the parameter positions'),
-    'Trace': dict(props=['C17'], gen=['TraceAgentCtor', 'TraceAgentDtor', 'TraceParams', 'TraceReturn', 'TraceException'],
-                  theorems=['trace_agent_ctor_tie', 'trace_agent_dtor_tie', 'trace_params_tie', 'trace_return_tie', 'trace_exception_tie', 'trace_record_tie'],
+    'Trace': dict(props=['C17'], gen=['TraceAgentCtor', 'TraceAgentDtor', 'TraceParams', 'TraceReturn', 'TraceException', 'StreamTracerTrace'],
+                  theorems=['trace_agent_ctor_tie', 'trace_agent_dtor_tie', 'trace_params_tie', 'trace_return_tie', 'trace_exception_tie', 'trace_record_tie',
+                            'stream_tracer_record'],
                   cxx='class trace_agent: constructor, destructor, trace_params, trace_return, trace_exception (mock.hpp)'),
     'PrintDispatch': dict(props=['C18'], gen=['PrintTop', 'PrinterDefault', 'StreamerStreamable', 'StreamerPair', 'StreamerTuple', 'StreamerCollection', 'StreamerOpaque'],
                           theorems=['print_dispatch', 'print_null_tie', 'print_null_model', 'streamer_streamable_tie', 'streamer_opaque_tie', 'streamer_pair_tie',
